@@ -16,7 +16,7 @@ import time
 from lib import vf
 
 PROP = "C03"
-PATTERN_TYPES = ["OptI32", "OptStr", "Mixed", "Fixed", "Wide", "OptGroup", "ListOpt", "Embedded"]
+PATTERN_TYPES = ["OptI32", "OptStr", "Mixed", "Fixed", "Wide", "OptGroup", "ListOpt", "Embedded", "OptInOpt", "Nested"]
 
 
 def _exec(vh, wd, scenarios, seed, name):
@@ -89,9 +89,9 @@ def run(tier, seed):
         short = [p for p in pats if len(p) <= 5]
         pats = short + rnd.sample([p for p in pats if len(p) > 5], 60)
     for p in pats:
-        for ty in (PATTERN_TYPES if not quick else [PATTERN_TYPES[(len(p) + sum(p)) % len(PATTERN_TYPES)], "OptI32"]):
+        for ty in (PATTERN_TYPES if not quick else [PATTERN_TYPES[(len(p) + sum(p)) % len(PATTERN_TYPES)], "OptI32", "OptInOpt"]):
             add({"type": ty, "pattern": p, "scale": 1}, "nullruns")
-            if not quick or rnd.random() < 0.5:
+            if not quick or ty in ("OptI32", "OptInOpt") or rnd.random() < 0.5:
                 add({"type": ty, "pattern": p, "scale": 16}, "nullruns")
     n_pat = len(scenarios) - n_dyn - n_cat
     vf.log(f"[C03] X: {[ (x.distinct) for x in xs]} states; scenarios: {n_dyn} universe + {n_cat} catalogue + {n_pat} patterns")
@@ -155,7 +155,7 @@ def run(tier, seed):
     }, [
         "dynamic universe: ancestor chains of length <=3 over {required, optional, repeated} and two-leaf forks, list length <=2; "
         "Go types built with reflect.StructOf (optional = pointer, repeated = slice)",
-        "typed generic paths are exercised through a static catalogue of 16 Go struct types",
+        "typed generic paths are exercised through a static catalogue of 17 Go struct types",
         "leaf tokens are numbered by the harness in traversal order, so a misplaced value is visible",
         "an empty Go slice/map under an optional LIST/MAP group may be stored as null or as empty (ShredMon.NormStreams)",
     ], time.time() - t0, len(out.violations))
